@@ -18,7 +18,8 @@ THEOREMS = ["Genql.C04." + t for t in [
     ["Genql.C04." + t for t in ["hard_eq_flat", "on_sound", "on_and_sound", "rowKey_total", "valueOfText_mem",
                                "join_cmp_model_textbook"]] + ["Genql.Obligations.C04.join_strategy_lines"]
 TRUSTED = ["Go map iteration order is an arbitrary permutation (results compared as multisets)",
-           "SHA-256 of the key text is collision free", "sqlparser JoinType predicates (table copied in pylib/sqlgen.py)",
+           "SHA-256 of the key text is collision free",
+           "sqlparser's parser; its JoinType predicates are no longer taken on trust: the table in pylib/sqlgen.py is compared with the parser's answers on every run",
            "goroutine scheduling of the PARALLEL variants only permutes chunk order (mutex-protected append)"]
 RULE = ("two aliased tables (0-7 rows, duplicate keys, numeric and string key columns, names chosen so both sides sort "
         "differently) x ON built from = != < <= > >= over 1-3 column pairs under AND/OR in random order and orientation x all 17 "
@@ -131,7 +132,24 @@ def nontrivial(c, g, l):
     return 0 < n and nl * nr > 0 and n != nl * nr
 
 
+def join_type_table(chk):
+    """the table of JoinType predicates the generator (and through it the model) uses, against what the parser's own
+    IsInner / IsLeftJoin / IsStraightJoin / IsParallel answer for each spelling in this build"""
+    from ..common import run_go
+    sp = list(JOIN_KINDS)
+    outs = run_go([{"op": "jointype", "text": s} for s in sp])
+    bad = []
+    for s, o in zip(sp, outs):
+        want = dict(zip(("inner", "left", "straight", "parallel"), JOIN_KINDS[s]))
+        got = {k: o.get(k) for k in want}
+        if o.get("r") != "ok" or got != want:
+            bad.append("%s: table %s parser %s" % (s, want, got if o.get("r") == "ok" else o.get("msg")))
+    chk.obligation("join-type-table-matches-parser", not bad, "; ".join(bad)[:1500])
+    chk.cov["join_spellings_checked_against_parser"] = len(sp)
+
+
 def explore(chk, rnd, tier):
+    join_type_table(chk)
     n = 3000 if tier == "quick" else 80000
     done = 0
     while done < n and not chk.violations:
